@@ -300,6 +300,7 @@ class FnContract:
     closures: dict = field(default_factory=dict)   # ordinal -> {"header": str, "clauses": [Clause]}
     loops: dict = field(default_factory=dict)      # ordinal -> {"clauses": [Clause], "iter": str}
     ghosts: list = field(default_factory=list)     # mid-body ghost insertions keyed by ordinal anchors
+    arms: list = field(default_factory=list)       # (props, keywords): properties charged only when a matching match-arm fails
     implicit: list = field(default_factory=list)   # property ids charged for implicit obligations
     external_body: bool = False
 
@@ -361,13 +362,17 @@ def parse_contracts(path):
                 m = re.match(r"implicit\s*\[([^\]]*)\]", s)
                 cur.implicit = m.group(1).split()
                 continue
+            m = re.match(r"arms\s*\[([^\]]*)\]\s*:\s*(.*)$", s)
+            if m:
+                cur.arms.append((m.group(1).split(), m.group(2).split()))
+                continue
             if s == "external_body":
                 cur.external_body = True
                 continue
             if s == "prologue:":
                 mode = "prologue"
                 continue
-            m = re.match(r"ghost\s+(after\s+let(?:\s+\w+)?|wrap\s+selfcall|wrap\s+method\s+\w+|loop_pre|loop_tail)\s*#(\d+)(?:\s+as\s+(\w+))?\s*:$", s)
+            m = re.match(r"ghost\s+(after\s+let(?:\s+\w+)?|wrap\s+selfcall|wrap\s+method\s+\w+|loop_pre|loop_tail|loop_post)\s*#(\d+)(?:\s+as\s+(\w+))?\s*:$", s)
             if m:
                 g = {"kind": " ".join(m.group(1).split()), "k": int(m.group(2)), "name": m.group(3) or "", "text": ""}
                 cur.ghosts.append(g)
@@ -808,6 +813,10 @@ def _annotate_body(em, fid, body, c, indent):
                 if k >= len(loops):
                     raise ExtractError(f"{fid}: ghost anchor loop#{k} but the body has {len(loops)} loops (lost anchor)")
                 ins_before.setdefault(loops[k][0], []).insert(0, ("ghostraw", (gi, g)))
+            elif g["kind"] == "loop_post":
+                if k >= len(loops):
+                    raise ExtractError(f"{fid}: ghost anchor loop#{k} but the body has {len(loops)} loops (lost anchor)")
+                ins_after.setdefault(L.match_close(body, loops[k][1]), []).append(("ghost", (gi, g)))
             elif g["kind"] == "loop_tail":
                 if k >= len(loops):
                     raise ExtractError(f"{fid}: ghost anchor loop#{k} but the body has {len(loops)} loops (lost anchor)")
